@@ -94,6 +94,12 @@ struct Raw {
 
 static SNAP: OnceLock<Snapshot> = OnceLock::new();
 
+/// Names of real SPIR-V extensions (a dictionary for OpExtension strings, frozen from the pinned tree's tables)
+pub fn extension_names() -> &'static Vec<String> {
+    static N: std::sync::OnceLock<Vec<String>> = std::sync::OnceLock::new();
+    N.get_or_init(|| serde_json::from_str(include_str!("../../data/extension_names.json")).expect("extension names parse"))
+}
+
 pub fn snap() -> &'static Snapshot {
     SNAP.get_or_init(build)
 }
